@@ -1426,3 +1426,97 @@ Proof. exact run_map. Qed.
 Print Assumptions T02p_congruence.
 
 End Perf.
+
+(* ================================================================================================
+   Tranche "idx": performance.replace_subscript_looping, fixes.simplify_transposes
+   (value semantics of RulesIdxModel: nested lists / tuples, iterators, dictionaries; Type/Index/Key/NameError) *)
+Require Pyrefact.RulesIdxModel Pyrefact.RulesIdxProofs.
+Module Idx.
+Import ZArith.
+Import ListNotations.
+Import Pyrefact.RulesIdxModel Pyrefact.RulesIdxProofs.
+
+(* replace_subscript_looping, as the code is, anywhere in an expression: same value / same exception class in every
+   environment where, at each rewritten comprehension, x is not the index, x holds a list, a tuple or nothing
+   iterable at all, and the element does not mention the new name x_i *)
+Theorem T02i_subscript_looping_partial : forall en e, sub_ok en e = true -> eval en (sub e) = eval en e.
+Proof. exact sub_partial. Qed.
+Print Assumptions T02i_subscript_looping_partial.
+
+(* '[x[i] for i in range(len(x))]' of a list / tuple IS list(x) *)
+Theorem T02i_subscript_looping_simple_value : forall en x i l,
+  x <> i -> (lookup en x = Some (VList l) \/ lookup en x = Some (VTup l)) ->
+  eval en (ESub x i BHole) = Ok (VList l) /\ eval en (sub (ESub x i BHole)) = Ok (VList l).
+Proof. exact sub_simple_value. Qed.
+Print Assumptions T02i_subscript_looping_simple_value.
+
+(* F02idx-1: x[i] of a dictionary looks a key up, iteration yields the keys *)
+Theorem T02i_subscript_looping_refuted : exists en e, eval en (sub e) <> eval en e.
+Proof. exact sub_refuted. Qed.
+Print Assumptions T02i_subscript_looping_refuted.
+
+(* F02idx-1: len() of an iterator is a TypeError, list() of it is not *)
+Theorem T02i_subscript_looping_iterator_refuted :
+  exists en e, eval en e = Err TypeErr /\ exists v, eval en (sub e) = Ok v.
+Proof. exact sub_iterator_refuted. Qed.
+Print Assumptions T02i_subscript_looping_iterator_refuted.
+
+(* F02idx-2: the new name x_i captures a variable of that name *)
+Theorem T02i_subscript_looping_capture_refuted : exists en e, sub_ok en e = false /\ eval en (sub e) <> eval en e.
+Proof. exact sub_capture_refuted. Qed.
+Print Assumptions T02i_subscript_looping_capture_refuted.
+
+(* the rule before b71cf14: the index used on its own is no longer bound; the repaired rule leaves the witness alone *)
+Theorem T02i_old_subscript_looping_index_refuted :
+  exists en e, sub e = e /\ eval en (sub_before_b71cf14 e) <> eval en e.
+Proof. exact sub_before_b71cf14_refuted. Qed.
+Print Assumptions T02i_old_subscript_looping_index_refuted.
+
+Example T02i_sub_examples :
+  sub e_simple = EListOf (EVar 0%nat) /\ sub_ok en_list e_simple = true /\
+  sub (ESub 0%nat 1%nat (BAdd BHole (BInt 1))) = EFor (join 0%nat 1%nat) 0%nat (BAdd (BVar (join 0%nat 1%nat)) (BInt 1)) /\
+  sub_ok en_list (ESub 0%nat 1%nat (BAdd BHole (BInt 1))) = true /\
+  eval en_list (ESub 0%nat 1%nat (BAdd BHole (BInt 1))) = Ok (VList [VInt 2; VInt 3]) /\
+  eval en_dict e_simple = Err KeyErr /\ eval en_dict (sub e_simple) = Ok (VList [VInt 1]).
+Proof. repeat split; reflexivity. Qed.
+
+(* simplify_transposes (F02idx-5: no guard). Iterated row by row, zip( *zip( *e)) is e when the rows of e all have
+   the same positive length (or e is an error / not iterable: same exception class) *)
+Theorem T02i_transposes_rows_partial : forall en e,
+  transp_ok (eval en e) = true -> eval en (ERows (EZip (EZip e))) = eval en (ERows e).
+Proof. exact transp_rows_partial. Qed.
+Print Assumptions T02i_transposes_rows_partial.
+
+(* FULL for the triple: zip( *zip( *zip( *e))) = zip( *e) for every e and every environment *)
+Theorem T02i_transposes_triple_preserves : forall en e, eval en (EZip (EZip (EZip e))) = eval en (EZip e).
+Proof. exact transp_triple. Qed.
+Print Assumptions T02i_transposes_triple_preserves.
+
+(* the type of the value: list(zip( *zip( *x))) is a list of tuples, list(x) a list of lists, although x is rectangular *)
+Theorem T02i_transposes_refuted :
+  exists en e, transp_ok (eval en (EVar 0%nat)) = true /\ eval en (transp e) <> eval en e.
+Proof. exact transp_refuted. Qed.
+Print Assumptions T02i_transposes_refuted.
+
+Theorem T02i_transposes_len_refuted : exists en e v, eval en e = Err TypeErr /\ eval en (transp e) = Ok v.
+Proof. exact transp_len_refuted. Qed.
+Print Assumptions T02i_transposes_len_refuted.
+
+Theorem T02i_transposes_ragged_refuted :
+  exists en e, eval en (transp (ERows (EZip (EZip e)))) <> eval en (ERows (EZip (EZip e))).
+Proof. exact transp_ragged_refuted. Qed.
+Print Assumptions T02i_transposes_ragged_refuted.
+
+Theorem T02i_transposes_empty_rows_refuted :
+  exists en e, eval en (transp (ERows (EZip (EZip e)))) <> eval en (ERows (EZip (EZip e))).
+Proof. exact transp_empty_rows_refuted. Qed.
+Print Assumptions T02i_transposes_empty_rows_refuted.
+
+Example T02i_transp_examples :
+  transp (ERows (EZip (EZip (EVar 0%nat)))) = ERows (EVar 0%nat) /\
+  transp (EZip (EZip (EZip (EVar 0%nat)))) = EZip (EVar 0%nat) /\
+  transp_ok (eval [(0%nat, m22)] (EVar 0%nat)) = true /\
+  eval [(0%nat, m22)] (ERows (EZip (EZip (EVar 0%nat)))) = Ok m22 /\
+  eval [(0%nat, ragged)] (ERows (EZip (EZip (EVar 0%nat)))) = Ok (VList [VList [VInt 1]; VList [VInt 3]]).
+Proof. repeat split; reflexivity. Qed.
+End Idx.
